@@ -49,6 +49,8 @@ ANCHORS = [
     ("SENDER_COMPRESSED_COMMAND", "src/transport/ssh.rs",
      r'Compression::Lz4 \| Compression::Zstd => \{[\s\S]*?"\{\} (receive-file) \{\} \{\}"[\s\S]*?Compression::None => \{[\s\S]*?sftp\.create\(', "str"),
     ("SENDER_SPARSE_COMMAND", "src/transport/ssh.rs", r'"\{\} (receive-sparse-file) \{\} --total-size \{\} --regions \'\{\}\' \{\}"', "str"),
+    ("VERIFY_REPLACES_NONE_CHECKSUM", "src/sync/mod.rs", r"let checksum_type = if self\.checksum (\|\| self\.verification_mode == ChecksumType::None) \{", "flag"),
+    ("VERIFY_BODY_MUTATING_CALLS", "src/sync/mod.rs", r"pub async fn verify\(&self[\s\S]*?\n    \}\n", "count:copy_file|sync_file_with_delta|\\.remove\(|create_dir_all|create_symlink|create_hardlink|write_file|set_file_mtime|std::fs::write|File::create"),
     ("TEMP_SUFFIX", "src/transport/local.rs", r'name\.push\("([^"]+)"\);', "str"),
 ]
 
@@ -62,6 +64,10 @@ def extract(repo):
         except OSError as e:
             errs.append(f"{name}: cannot read {rel}: {e}"); continue
         ms = re.findall(rx, src, flags=re.M | (re.S if kind.endswith("_s") else 0))
+        if kind.startswith("count:"):
+            # number of occurrences of a sub-pattern inside the (unique) anchored region
+            if len(ms) != 1: errs.append(f"{name}: region anchor matched {len(ms)} times in {rel}"); continue
+            vals[name] = ("Nat", str(len(re.findall(kind[6:], ms[0])))); continue
         if kind == "flag":
             # presence flags: absent is a value (false), not a missing anchor; the consts_ok lemma decides
             if len(ms) > 1: errs.append(f"{name}: anchor matched {len(ms)} times in {rel}"); continue
